@@ -30,16 +30,16 @@
 #include "src/precomputed_ecmult_gen.c"
 
 /* ---------- callbacks ---------- */
-static int g_illegal = 0, g_error = 0;
+static __thread int g_illegal = 0, g_error = 0;
 static void count_illegal(const char *msg, void *data) { (void)msg; (void)data; g_illegal++; }
 static void count_error(const char *msg, void *data) { (void)msg; (void)data; g_error++; }
 
 /* ---------- contexts ---------- */
-static secp256k1_context *CTX = NULL;
+static __thread secp256k1_context *CTX = NULL;
 
 /* ---------- output buffer ---------- */
-static char *g_out = NULL;
-static size_t g_out_len = 0, g_out_cap = 0;
+static __thread char *g_out = NULL;
+static __thread size_t g_out_len = 0, g_out_cap = 0;
 static void out_reserve(size_t n) {
     if (g_out_len + n + 1 > g_out_cap) {
         g_out_cap = (g_out_len + n + 1) * 2 + 256;
@@ -70,8 +70,8 @@ static void out_ill(void) { char b[32]; snprintf(b, sizeof b, "i%d", g_illegal);
 /* ---------- arguments ---------- */
 typedef struct { char *s; unsigned char *b; size_t n; int is_hex; int is_null; } arg_t;
 #define MAXARGS 4096
-static arg_t g_args[MAXARGS];
-static int g_argc;
+static __thread arg_t *g_args = NULL;
+static __thread int g_argc;
 
 static int hexval(int c) {
     if (c >= '0' && c <= '9') return c - '0';
@@ -170,7 +170,7 @@ static void out_keypair(const secp256k1_keypair *kp) {
 
 /* ---------- custom nonce functions ---------- */
 typedef struct { unsigned char v[32]; long long failat; } nonce_state;
-static nonce_state g_ns;
+static __thread nonce_state g_ns;
 static void add_ctr(unsigned char *out, const unsigned char *v, unsigned int ctr) {
     int i; unsigned int carry = ctr;
     for (i = 31; i >= 0; i--) { unsigned int t = v[i] + (carry & 0xff); carry = (carry >> 8) + (t >> 8); out[i] = (unsigned char)t; }
@@ -224,11 +224,50 @@ static int tok_noncefn_h(int i, secp256k1_nonce_function_hardened *fp, int *is_n
 
 /* ---------- op families ---------- */
 /* each returns 1 handled, 0 not mine, -1 bad args */
+static char *run_nested(const char *line, int *illegal_out);
 #include "ops_basic.h"
 #include "ops_all.h"
 
 typedef int (*family_fn)(const char *op);
 static family_fn g_families[] = { ops_basic, OPS_ALL_FAMILIES NULL };
+
+/* Tokenises `line` in place, dispatches, leaves the result in g_out. Returns a malloc'd result string. */
+static char *dispatch_line(char *line) {
+    char *tok, *save = NULL, *res; int i, rc = 0; const char *op;
+    size_t len = strlen(line);
+    arg_t *args = (arg_t*)malloc(MAXARGS * sizeof(arg_t));
+    while (len > 0 && (line[len-1] == '\n' || line[len-1] == '\r' || line[len-1] == ' ')) line[--len] = 0;
+    g_args = args; g_argc = 0; g_out = NULL; g_out_len = 0; g_out_cap = 0;
+    g_illegal = 0; g_error = 0;
+    tok = strtok_r(line, " ", &save);
+    if (!tok) { free(args); g_args = NULL; return strdup(""); }
+    op = tok;
+    if (op[0] == '#') { free(args); g_args = NULL; return strdup(op); }
+    while ((tok = strtok_r(NULL, " ", &save)) != NULL && g_argc < MAXARGS) { g_args[g_argc].s = tok; arg_decode(&g_args[g_argc]); g_argc++; }
+    for (i = 0; g_families[i]; i++) { rc = g_families[i](op); if (rc != 0) break; }
+    if (rc == 0) { res = (char*)malloc(strlen(op) + 32); sprintf(res, "ERR unknown-op %s", op); }
+    else if (rc < 0) { res = (char*)malloc(strlen(op) + 32); sprintf(res, "ERR bad-args %s", op); }
+    else {
+        if (g_error) { char b[32]; snprintf(b, sizeof b, "E%d", g_error); out_str(b); }
+        res = g_out ? g_out : strdup(""); g_out = NULL;
+    }
+    for (i = 0; i < g_argc; i++) free(args[i].b);
+    free(args); free(g_out);
+    g_args = NULL; g_out = NULL; g_out_len = g_out_cap = 0;
+    return res;
+}
+
+/* Run a protocol line from inside another op (used by the context-history ops): all per-line
+ * globals are saved and restored. */
+static char *run_nested(const char *line, int *illegal_out) {
+    arg_t *sa = g_args; int sc = g_argc; char *so = g_out; size_t sl = g_out_len, scap = g_out_cap; int si = g_illegal, se = g_error;
+    char *copy = strdup(line), *res;
+    res = dispatch_line(copy);
+    if (illegal_out) *illegal_out = g_illegal;
+    free(copy);
+    g_args = sa; g_argc = sc; g_out = so; g_out_len = sl; g_out_cap = scap; g_illegal = si; g_error = se;
+    return res;
+}
 
 int main(int argc, char **argv) {
     char *line = NULL; size_t cap = 0; ssize_t len;
@@ -238,28 +277,15 @@ int main(int argc, char **argv) {
     secp256k1_context_set_error_callback(CTX, count_error, NULL);
     harness_init();
     while ((len = getline(&line, &cap, stdin)) > 0) {
-        char *p = line, *tok; int i, rc = 0; const char *op;
-        while (len > 0 && (line[len-1] == '\n' || line[len-1] == '\r' || line[len-1] == ' ')) line[--len] = 0;
-        g_argc = 0; g_out_len = 0; if (g_out) g_out[0] = 0;
-        g_illegal = 0; g_error = 0;
-        tok = strtok(p, " ");
-        if (!tok) { printf("\n"); continue; }
-        op = tok;
-        if (op[0] == '#') { /* comment: echo */ char *r = strtok(NULL, ""); printf("%s%s%s\n", op, r ? " " : "", r ? r : ""); continue; }
-        while ((tok = strtok(NULL, " ")) != NULL && g_argc < MAXARGS) { g_args[g_argc].s = tok; arg_decode(&g_args[g_argc]); g_argc++; }
-        for (i = 0; g_families[i]; i++) { rc = g_families[i](op); if (rc != 0) break; }
-        if (rc == 0) printf("ERR unknown-op %s\n", op);
-        else if (rc < 0) printf("ERR bad-args %s\n", op);
-        else {
-            if (g_error) { char b[32]; snprintf(b, sizeof b, "E%d", g_error); out_str(b); }
-            printf("%s\n", g_out ? g_out : "");
-        }
-        for (i = 0; i < g_argc; i++) free(g_args[i].b);
+        char *res;
+        if (line[0] == '#') { while (len > 0 && (line[len-1] == '\n' || line[len-1] == '\r')) line[--len] = 0; printf("%s\n", line); continue; }
+        res = dispatch_line(line);
+        printf("%s\n", res);
+        free(res);
         fflush(stdout);
     }
     free(line);
     harness_fini();
     secp256k1_context_destroy(CTX);
-    free(g_out);
     return 0;
 }
